@@ -2,7 +2,7 @@
 """Run the registered check of each seeded change's property against a scratch copy of /repo/include with the change applied.
    (Equivalent to `git -C /repo apply` + check + `git -C /repo checkout -- .`, but does not disturb /repo while other work runs.)
    usage: run_seeds.py [seed-id ...]     -> updates seeded/<id>/result.json and prints a table"""
-import json, os, shutil, subprocess, sys, time
+import json, os, re, shutil, subprocess, sys, time
 V = os.path.dirname(os.path.dirname(os.path.abspath(__file__)))
 ids = sys.argv[1:] or sorted(os.listdir(os.path.join(V, 'seeded')))
 props = json.load(open(os.path.join(V, 'props.json')))
@@ -40,3 +40,4 @@ for sid in ids:
     for v in res['violations'][:3]:
         print("    " + v.split('/')[-1])
     shutil.rmtree(scratch, ignore_errors=True)
+    shutil.rmtree(os.path.join(V, '.work', 'alt_' + re.sub(r'\W+', '_', scratch)), ignore_errors=True)   # the check's work dir for this scratch tree
